@@ -202,7 +202,7 @@ PROPS = {
                 "controller; server creates/updates/deletes moving objects in and out of a 11-filter family, relists, Refilter sequences "
                 "(back to earlier, equal-by-construction, FN) also inside bursts with events in flight, Close. At every quiescent point "
                 "each ready filtered node's cache must equal its current filter applied to its parent's observed cache, and its drained "
-                "events must replay from its previous content to its current one. Non-trivial: an observation that carried events.",
+                "events must replay from its previous content to its current one. Non-trivial: an observation that carried events. Also trees whose consumers do not read (their caches must go on following the parent), a filtered subscription on a home-made parent that never becomes ready, and List() read while a node is refiltered.",
         "trusted_base": TREE_TB,
         "assumptions": ["no event buffer overflows (<= EventBufsiz/4 events in flight)", "filters are pure"],
     },
@@ -230,7 +230,7 @@ PROPS = {
         "rule": "tree engine: half of the scenarios hold the first list (gate) and attach / Refilter(equal) / Refilter(new) / server "
                 "changes before releasing it, in random orders, immediate and deferred variants at every depth; Events() is drained "
                 "before Ready() is looked at; a node observed ready must already hold its filtered parent content; a deferred node "
-                "without a supplied filter must not be ready. Non-trivial: an observation that carried events.",
+                "without a supplied filter must not be ready. Non-trivial: an observation that carried events. Also: the first list completing in the instant in which further changes arrive (list answer frozen at that instant); a filtered subscription on a home-made parent that delivers events but never becomes ready (nothing cached, nothing published, Ready open); the join engine (a join is ready only when source and destination are).",
         "trusted_base": TREE_TB,
         "assumptions": ["observations are taken at quiescence; 'before Ready' is judged on what Events() delivered up to that point"],
     },
@@ -288,7 +288,7 @@ PROPS = {
                 "handlers that block (stalled) and are released later, Close at every point. The recorded callback log must be OnInitialize "
                 "(with the publisher's cache at readiness) followed by one callback per event of the matching kind and object; nothing "
                 "before OnInitialize, nothing when never ready, callbacks never overlap (the handler counts concurrent entries). "
-                "Non-trivial: an observation that carried callbacks.",
+                "Non-trivial: an observation that carried callbacks. Also: monitors whose handler blocks while more than a buffer of events arrives, a monitor attached right after a filter-delete, a monitor on a home-made publisher that never becomes ready although events wait in its subscription.",
         "trusted_base": TREE_TB,
         "assumptions": ["typed monitors: the twelve typed packages' monitors are compared with the untyped one on the same server (typed engine)"],
     },
@@ -317,7 +317,7 @@ PROPS = {
         "rule": "ctrl engine mode c14: every failure kind {List error, nil, non-list object, *Status, list of non-objects} injected at "
                 "the k-th list, k = 1..4, amid the watch faults of C03, with a subscriber attached: Done, Error() class, Ready (iff k > 1) "
                 "and the subscriber's Done are checked; without an injected list failure the controller must keep running through every "
-                "watch failure; a deliberately closed controller must report no failure.",
+                "watch failure; a deliberately closed controller must report no failure. Also: list faults with empty / undecoded items, the canceled fault bare and wrapped two ways, ERROR frames that carry no Status.",
         "trusted_base": CTRL_TB,
         "assumptions": ["as C03"],
     },
@@ -371,7 +371,7 @@ PROPS = {
                 "{Subscribe*, Clone*, Refilter, Cache().List/Get, Close} of every node issued concurrently with the trigger and again after "
                 "it; at quiescence every call must have returned (ErrNotRunning or a value), every object obtained while racing must be "
                 "done, every node done; testing/synctest fails the run if any goroutine of the bubble never finishes (leak / zombie / hang). "
-                "ctrl engine: Close/cancel after watch and list faults (mid-reconnect, blocked Watch, slow list). Non-trivial: observations with events.",
+                "ctrl engine: Close/cancel after watch and list faults (mid-reconnect, blocked Watch, slow list). Non-trivial: observations with events. Also: a node closed on its own with changes in flight at the instant of the trigger.",
         "trusted_base": TREE_TB + CTRL_TB + ["API-call model KcacheModel/Api.lean written by hand from the select/request/result pattern of publisher.go, cache.go, subscription_filter.go; tied by the c12 mode's racing API probes (every call must have returned at the quiescent point)"],
         "assumptions": ["client List/Watch return once their context is cancelled", "bounds are in virtual time"],
     },
@@ -387,7 +387,7 @@ PROPS = {
                 "source list; at every quiescent point the join's cache must be the destination objects selected by the current sources "
                 "(reference: the model's filter constructors), readiness only after both sides, events a well-formed delta; then the result "
                 "is closed: it must be done, the bases must keep following their servers, and no monitor / filtered-clone / join goroutine may remain. "
-                "Non-trivial: an observation with a non-empty join or destination cache.",
+                "Non-trivial: an observation with a non-empty join or destination cache. Also: filter functions that take their time (the ...With constructors), sources flipping A->B->A, destination changes in the instant a held list completes.",
         "trusted_base": TREE_TB + ["the join is modelled as: deferred filtered clone (FSub) + source monitor issuing Refilter(filterFn(source cache)) (JS machine in Props/C09.lean)"],
         "assumptions": ["sources are namespaced; the replication-controller join follows the (namespace-less) RC PodsFilter as is (known finding C19)"],
     },
